@@ -73,18 +73,18 @@ def seeded(args):
         if os.path.exists(meta):
             m = json.load(open(meta))
             for pid in m.get("caught_by", []):
-                jobs.append((os.path.join(sdir, name, "patch.diff"), pid, "seeded/" + name))
+                jobs.append((os.path.join(sdir, name, "patch.diff"), pid, "seeded/" + name, m.get("base_commit")))
     kf = json.load(open(os.path.join(root, "known_findings.json")))
     for f in kf["findings"]:
         if f.get("status") == "fixed" and f.get("revert_patch"):
-            jobs.append((os.path.join(root, f["revert_patch"]), f["property"], f["revert_patch"]))
+            jobs.append((os.path.join(root, f["revert_patch"]), f["property"], f["revert_patch"], None))
     only = os.environ.get("VERIF_SELFTEST_ONLY")
     missed = 0
-    for patch, pid, label in jobs:
+    for patch, pid, label, base in jobs:
         if only and only not in label and only != pid:
             continue
         p = subprocess.run([os.path.join(root, "tools", "mutant.sh"), patch, pid, "--tier", "quick"], capture_output=True, text=True,
-                           env=dict(os.environ, REPLAY_TOO="1"))
+                           env=dict(os.environ, REPLAY_TOO="1", **({"BASE_COMMIT": base} if base else {})))
         caught = p.returncode == 1 and "VIOLATION property=%s" % pid in p.stdout and "REPLAY-REPRODUCES" in p.stdout
         cls = ""
         for line in p.stdout.splitlines():
